@@ -17,3 +17,13 @@ VARIANTS = [
     fire("c08-loop-state-not-restored", [(WK, "            self.objective = objective\n            self.address[:] = address[:]\n            self.index = index\n            self.visit(loop.statements)", "            self.objective = objective\n            self.address[:] = address[:]\n            self.visit(loop.statements)")], ("C08.3", "loop-repeats"), P),
     silent("c08-helper-variable", [(BE, "        mr = Readout(nxt, self.readout_index)\n        subcircuit.accept_readout(mr)\n        self.results.append(mr)", "        mr = Readout(nxt, self.readout_index)\n        results = self.results\n        subcircuit.accept_readout(mr)\n        self.results.append(mr)")], P),
 ]
+
+WK8 = "src/jaqalpaq/core/algorithm/walkers.py"
+VARIANTS += [
+    fire("c08-zero-loop-skips-everything",
+         [(WK8, "            while self.objective and self.objective[: len(address)] == address:\n", "            while self.objective:\n")],
+         ("C08.5", "TraceVisitor.visit_LoopStatement:zero-trip-skip"), ("C08",)),
+    fire("c08-zero-loop-not-handled",
+         [(WK8, "        if loop.iterations <= 0:\n", "        if False:\n")],
+         ("*", "TraceVisitor.visit_LoopStatement"), ("C08",)),
+]
